@@ -68,20 +68,27 @@ def main():
     ok = meta["baseline_tests_pass_with_change"] and rc1 != 0 and rc0 == 0
     meta["confirmed"] = ok
     print("baseline ok:", meta["baseline_tests_pass_with_change"], " demo with change:", rc1, " without:", rc0)
-    # run the checks against /repo with the patch applied
-    rc, o = sh("git -C /repo status --porcelain")
+    # run the checks against the repository with the patch applied: /repo itself, or (SEED_EVAL_REPO) a scratch worktree of it,
+    # in which case the checks are pointed there through BBVERIF_REPO + PYTHONPATH
+    repo = os.environ.get("SEED_EVAL_REPO", "/repo")
+    cenv = dict(os.environ)
+    if repo != "/repo":
+        cenv["BBVERIF_REPO"] = repo
+        cenv["PYTHONPATH"] = os.path.join(repo, "blackbird_python")
+    meta["evaluated_in"] = repo
+    rc, o = sh("git -C %s status --porcelain" % repo)
     if o.strip():
-        print("/repo not clean, refusing")
+        print(repo, "not clean, refusing")
         return 2
-    rc, o = sh("git -C /repo apply %s" % os.path.join(out, "patch.diff"))
+    rc, o = sh("git -C %s apply %s" % (repo, os.path.join(out, "patch.diff")))
     if rc != 0:
-        print("patch does not apply to /repo:", o)
+        print("patch does not apply to", repo, ":", o)
         return 2
     results = {}
     try:
         for c in checks:
             t0 = time.time()
-            rc, o = sh("sh bin/check %s quick" % c, cwd=VERIF, timeout=3600)
+            rc, o = sh("sh bin/check %s quick" % c, cwd=VERIF, timeout=3600, env=cenv)
             lines = [l for l in o.split("\n") if l.startswith(("VIOLATION", "KNOWN", "HARNESS", c + " "))]
             results[c] = {"exit": rc, "wall_s": round(time.time() - t0, 1), "summary": lines[-1] if lines else "", "violations": [l for l in lines if l.startswith("VIOLATION")][:3]}
             # keep the first violation text
@@ -90,7 +97,7 @@ def main():
                 results[c]["first_violation_text"] = o[vi:vi + 900]
             print(c, "exit", rc, results[c]["summary"])
     finally:
-        sh("git -C /repo checkout -- .")
+        sh("git -C %s checkout -- ." % repo)
     meta["checks_run_quick"] = results
     meta["detected_by"] = [c for c, r in results.items() if r["exit"] == 1]
     json.dump(meta, open(os.path.join(out, "meta.json"), "w"), indent=1)
